@@ -56,7 +56,8 @@ class C09(C01):
             a = rng.choice([0, 0, 1, 2, 3, 4])
             t = rng.choice([0, 5, 2047, 2048])
             ev = pre + [(t, a, d), (t + 1, 0, T.ack(2 if pre else (0 if opts else 1))), (t + 2, 0, T.ack(1 if opts else 2))]
-            yield T.mk_case(content, [], options=opts, retries=rng.choice([0, 1, 2]), events=ev)
+            yield T.mk_case(content, [], options=opts, retries=rng.choice([0, 1, 2]), events=ev,
+                            proc=rng.choice([0, 0, 1, 2047, 2048]))
 
     def nontrivial(self, c, obs):
         return (tuple(c["events"]), tuple(c["options"]))
